@@ -82,10 +82,6 @@ package api
 //@   modifies nothing
 
 // protobuf decoding of a stored pin (glue over the generated pb code; not verified in this build)
-//@ func (pin *Pin) ProtoUnmarshal
-//@   opts trusted
-//@   ensures forall o *Pin :: o != pin ==> *o == old(*o)
-//@   modifies heap(Pin)
 
 // time left before the metric expires (time.Until): a library clock read, not verified; the value
 // returned last is recorded by the caller
@@ -94,3 +90,59 @@ package api
 //@   opts trusted
 //@   records lastTTL = res
 //@   modifies nothing
+
+// ---- stored protobuf form of a pin: each protobuf field is the encoding of the pin field it names ----
+//@ func convertPinType
+//@   property C08
+//@   opts bv
+//@   ensures [type-ordinal] (t == BadType ==> res == 0) && (t == DataType ==> res == 1) && (t == MetaType ==> res == 2) && (t == ClusterDAGType ==> res == 3) && (t == ShardType ==> res == 4)
+//@   ensures t == 0 ==> res == 0
+//@   loop 1 (t)
+//@     invariant (old(t) == 1 || old(t) == 2 || old(t) == 4 || old(t) == 8 || old(t) == 16) ==> t <= 16 && 0 <= i && i <= 4 && (t << i) == old(t)
+//@     invariant old(t) == 0 ==> t == 0
+//@   modifies nothing
+
+//@ spec func cidBytes(c cid.Cid) []byte = libfn("cid.Cid.Bytes", 0, c)
+//@ spec func castCid(b []byte) cid.Cid = libfn("cid.Cast", 0, b)
+//@ spec func castErr(b []byte) error = libfn("cid.Cast", 1, b)
+//@ spec func unixSecs(t time.Time) int = libfn("time.Time.Unix", 0, t)
+//@ spec func knownType(t PinType) bool = t == BadType || t == DataType || t == MetaType || t == ClusterDAGType || t == ShardType
+//@ spec func typeOrd(t PinType) int = ite(t == DataType, 1, ite(t == MetaType, 2, ite(t == ClusterDAGType, 3, ite(t == ShardType, 4, 0))))
+// b/o: the protobuf message and its options sub-message; p: the pin it encodes
+//@ spec func pbEncodes(b pb.Pin, o pb.PinOptions, p Pin) bool = same(b.Cid, cidBytes(p.Cid)) && (knownType(p.Type) ==> b.Type == typeOrd(p.Type)) && len(b.Allocations) == len(p.Allocations) && (forall i int :: 0 <= i && i < len(p.Allocations) ==> same(b.Allocations[i], libfn("peer.ID.Marshal", 0, p.Allocations[i]))) && b.MaxDepth == p.MaxDepth && (p.Reference != nil ==> same(b.Reference, cidBytes(*p.Reference))) && (p.Reference == nil ==> len(b.Reference) == 0) && o.ReplicationFactorMin == p.ReplicationFactorMin && o.ReplicationFactorMax == p.ReplicationFactorMax && o.Name == p.Name && o.ShardSize == p.ShardSize && o.Metadata == p.Metadata && same(o.PinUpdate, cidBytes(p.PinUpdate)) && o.ExpireAt == ite(p.ExpireAt == zerotime() || p.ExpireAt == unixZero, 0, unixSecs(p.ExpireAt)) && len(o.Origins) == len(p.Origins) && (forall i int :: 0 <= i && i < len(p.Origins) ==> same(o.Origins[i], libfn("multiaddr.Multiaddr.Bytes", 0, p.Origins[i])))
+// q: the pin after decoding b/o into it; q0: the same pin before
+//@ spec func pbDecodes(b pb.Pin, o pb.PinOptions, q Pin, q0 Pin) bool = q.Cid == ite(castErr(b.Cid) == nil, castCid(b.Cid), cid.Undef) && q.Type == (1 << b.Type) && len(q.Allocations) == len(b.Allocations) && (forall i int :: 0 <= i && i < len(b.Allocations) ==> q.Allocations[i] == libfn("peer.IDFromBytes", 0, b.Allocations[i])) && q.MaxDepth == b.MaxDepth && (castErr(b.Reference) != nil ==> q.Reference == nil) && (castErr(b.Reference) == nil ==> q.Reference != nil && *q.Reference == castCid(b.Reference)) && q.ReplicationFactorMin == o.ReplicationFactorMin && q.ReplicationFactorMax == o.ReplicationFactorMax && q.Name == o.Name && q.ShardSize == o.ShardSize && q.Metadata == o.Metadata && (o.ExpireAt > 0 ==> q.ExpireAt == unixnano(o.ExpireAt * 1000000000)) && (o.ExpireAt == 0 ==> q.ExpireAt == q0.ExpireAt) && q.PinUpdate == ite(castErr(o.PinUpdate) == nil, castCid(o.PinUpdate), q0.PinUpdate) && q.Mode == ite(b.MaxDepth == 0, PinModeDirect, PinModeRecursive) && len(q.Origins) == len(o.Origins) && (forall i int :: 0 <= i && i < len(o.Origins) ==> q.Origins[i] == libfn("multiaddr.NewMultiaddrBytes", 0, o.Origins[i]))
+
+//@ extern proto.Marshal(m)
+//@   modifies nothing
+//@ extern proto.Unmarshal(b, m)
+//@   modifies *m
+//@ func (pin *Pin) ProtoMarshal
+//@   property C08
+//@   requires pin != nil
+//@   loop 1 (range pin.Allocations)
+//@     invariant len(allocs) == len(pin.Allocations) && forall j int :: 0 <= j && j < idx1 ==> same(allocs[j], libfn("peer.ID.Marshal", 0, pin.Allocations[j]))
+//@   loop 2 (range pin.Origins)
+//@     invariant len(origins) == len(pin.Origins) && forall j int :: 0 <= j && j < idx2 ==> same(origins[j], libfn("multiaddr.Multiaddr.Bytes", 0, pin.Origins[j]))
+//@   at_call proto.Marshal assert [encodes-every-field] pbPin.Options != nil && pbEncodes(*pbPin, *pbPin.Options, *pin)
+//@   modifies nothing
+
+//@ func (pin *Pin) ProtoUnmarshal
+//@   property C08
+//@   requires pin != nil
+//@   loop 1 (range pbAllocs)
+//@     invariant len(allocs) == len(pbAllocs) && forall j int :: 0 <= j && j < idx1 ==> allocs[j] == libfn("peer.IDFromBytes", 0, pbAllocs[j])
+//@   loop 2 (range pbOrigins)
+//@     invariant len(origins) == len(pbOrigins) && forall j int :: 0 <= j && j < idx2 ==> origins[j] == libfn("multiaddr.NewMultiaddrBytes", 0, pbOrigins[j])
+//@   ensures [decodes-every-field] err == nil && pbPin.Options != nil ==> pbDecodes(pbPin, *pbPin.Options, *pin, old(*pin))
+//@   ensures [others-untouched] forall o *Pin :: o != pin ==> *o == old(*o)
+//@   modifies heap(Pin)
+
+// The two specifications are inverse on well-formed pins, up to the documented lossy fields (user allocations are not
+// stored, expiry keeps whole seconds, the mode is re-derived from the depth). The hypotheses in libraryInverses are the
+// assumed (unchecked) inverse laws of go-cid, go-libp2p-core/peer, go-multiaddr and package time.
+//@ spec func libraryInverses() bool = (forall c cid.Cid :: c != cid.Undef ==> castErr(cidBytes(c)) == nil && castCid(cidBytes(c)) == c) && castErr(cidBytes(cid.Undef)) != nil && (forall bs []byte :: len(bs) == 0 ==> castErr(bs) != nil) && (forall id peer.ID :: libfn("peer.IDFromBytes", 0, libfn("peer.ID.Marshal", 0, id)) == id) && (forall m multiaddr.Multiaddr :: maEqual(libfn("multiaddr.NewMultiaddrBytes", 0, libfn("multiaddr.Multiaddr.Bytes", 0, m)), m)) && (forall t time.Time, n int :: t == unixnano(n) ==> unixSecs(t) * 1000000000 <= n && n < (unixSecs(t) + 1) * 1000000000) && (1 << 0) == 1 && (1 << 1) == 2 && (1 << 2) == 4 && (1 << 3) == 8 && (1 << 4) == 16
+//@ spec func wellFormedPin(p Pin) bool = knownType(p.Type) && p.Cid != cid.Undef && (p.Reference != nil ==> *p.Reference != cid.Undef) && p.Mode == ite(p.MaxDepth == 0, PinModeDirect, PinModeRecursive) && (p.ExpireAt == zerotime() || p.ExpireAt == unixZero || unixSecs(p.ExpireAt) > 0)
+//@ spec func samePin(p Pin, q Pin) bool = q.Cid == p.Cid && q.Type == p.Type && len(q.Allocations) == len(p.Allocations) && (forall i int :: 0 <= i && i < len(p.Allocations) ==> q.Allocations[i] == p.Allocations[i]) && q.MaxDepth == p.MaxDepth && (q.Reference == nil <==> p.Reference == nil) && (p.Reference != nil ==> *q.Reference == *p.Reference) && q.ReplicationFactorMin == p.ReplicationFactorMin && q.ReplicationFactorMax == p.ReplicationFactorMax && q.Name == p.Name && q.ShardSize == p.ShardSize && q.Metadata == p.Metadata && q.PinUpdate == p.PinUpdate && q.Mode == p.Mode && len(q.Origins) == len(p.Origins) && (forall i int :: 0 <= i && i < len(p.Origins) ==> maEqual(q.Origins[i], p.Origins[i])) && (p.ExpireAt == zerotime() || p.ExpireAt == unixZero ==> q.ExpireAt == zerotime()) && (p.ExpireAt != zerotime() && p.ExpireAt != unixZero ==> unixSecs(q.ExpireAt) == unixSecs(p.ExpireAt))
+//@ lemma pin_protobuf_roundtrip: forall p Pin, b pb.Pin, o pb.PinOptions, q Pin, q0 Pin :: libraryInverses() && wellFormedPin(p) && q0.PinUpdate == cid.Undef && q0.ExpireAt == zerotime() && pbEncodes(b, o, p) && pbDecodes(b, o, q, q0) ==> samePin(p, q)
+//@   property C08
